@@ -315,11 +315,27 @@ func (r *Runner) RunCases(cases []Case) {
 				break
 			}
 		}
+		mstage0 := ""
+		if mm, ok := outs[i].(map[string]any); ok {
+			mstage0, _ = mm["stage"].(string)
+		}
 		model := r.modelOut(op, outs[i])
 		ci, cm := canon(impl), canon(model)
 		idx := r.St.Evaluations
 		r.St.Evaluations++
 		cls := c.Op + "|" + c.Feat + "|" + short(ci)
+		if fl := os.Getenv("VERIF_FEATLOG"); fl != "" {
+			// generator diagnostics: one line per case (features, model verdict and stage, agreement)
+			if f, err := os.OpenFile(fl, os.O_APPEND|os.O_CREATE|os.O_WRONLY, 0o644); err == nil {
+				mres, mstage := "", ""
+				if mm, ok := outs[i].(map[string]any); ok {
+					mres, _ = mm["res"].(string)
+				}
+				mstage = mstage0
+				fmt.Fprintf(f, "%s\t%s\t%s\t%s\t%v\n", c.Op, c.Feat, mres, mstage, ci == cm)
+				f.Close()
+			}
+		}
 		if c.Trivial {
 			r.St.Trivial++
 		} else {
